@@ -17,6 +17,7 @@ import (
 
 	"go.uber.org/zap"
 
+	"verif/engine/e2"
 	"verif/engine/hmain"
 	"verif/engine/report"
 )
@@ -24,7 +25,7 @@ import (
 // C42 — incoming streams are dispatched to the right handler (spec/transport.StreamRouter).
 
 func init() {
-	props["C42"] = hmain.Prop{Level: "model_checking", Run: c42, Replay: c42Replay}
+	props["C42"] = hmain.Prop{Level: "model_checking", Run: c42, Worker: e2.Worker(c42cLookup), Replay: c42Replay}
 }
 
 // a registration slot: chord (kind, target) with Target<0 = node-wide, or tunnel (kind)
@@ -160,79 +161,105 @@ type c42result struct {
 	cs    c42case
 	msg   string
 	class string
+	got   int // slot index whose handler ran, -1 closed, -2 nothing observed
 }
 
-// c42run builds one real router with the registrations, then feeds every incoming stream
-// through it one at a time. Returns one result per incoming stream plus the number of
-// outcome events (handler runs + closes) observed in total.
-func c42run(reg []c42slot, reverse bool, ins []c42in) (res []c42result, events *atomic.Int64) {
+// c42rig is one real router on stub transports with observable handlers and closes.
+type c42rig struct {
+	router  *transport.StreamRouter
+	chordT  *c42transport
+	tunnelT *c42transport
+	evc     chan c42event
+	total   *atomic.Int64
+}
+
+func c42newRig() *c42rig {
+	r := &c42rig{
+		chordT:  &c42transport{ch: make(chan *transport.StreamDelegate)},
+		tunnelT: &c42transport{ch: make(chan *transport.StreamDelegate)},
+		evc:     make(chan c42event, 64),
+		total:   new(atomic.Int64),
+	}
+	r.router = transport.NewStreamRouter(zap.NewNop(), r.chordT, r.tunnelT)
+	return r
+}
+
+// register installs the handler of reg[i] (it reports i)
+func (r *c42rig) register(reg []c42slot, i int) {
+	h := func(d *transport.StreamDelegate) {
+		r.total.Add(1)
+		r.evc <- c42event{slot: i, d: d}
+	}
+	s := reg[i]
+	switch {
+	case s.Tunnel:
+		r.router.HandleTunnel(s.Kind, h)
+	case s.Target < 0:
+		r.router.HandleChord(s.Kind, nil, h)
+	default:
+		r.router.HandleChord(s.Kind, &protocol.Node{Id: uint64(s.Target), Address: "10.0.0.1:1"}, h)
+	}
+}
+
+// dispatch starts the real accept loops and feeds every incoming stream through the router
+// one at a time. A handler is right when it was registered for exactly the slot the
+// statement designates (several registrations of the same slot are interchangeable).
+func (r *c42rig) dispatch(reg []c42slot, reverse bool, ins []c42in) (res []c42result) {
 	ctx, cancel := context.WithCancel(context.Background())
 	defer cancel()
-	chordT := &c42transport{ch: make(chan *transport.StreamDelegate)}
-	tunnelT := &c42transport{ch: make(chan *transport.StreamDelegate)}
-	router := transport.NewStreamRouter(zap.NewNop(), chordT, tunnelT)
-	evc := make(chan c42event, 64)
-	total := new(atomic.Int64)
-	order := make([]int, len(reg))
-	for i := range order {
-		order[i] = i
-		if reverse {
-			order[i] = len(reg) - 1 - i
-		}
-	}
-	for _, i := range order {
-		i := i
-		h := func(d *transport.StreamDelegate) {
-			total.Add(1)
-			evc <- c42event{slot: i, d: d}
-		}
-		s := reg[i]
-		switch {
-		case s.Tunnel:
-			router.HandleTunnel(s.Kind, h)
-		case s.Target < 0:
-			router.HandleChord(s.Kind, nil, h)
-		default:
-			router.HandleChord(s.Kind, &protocol.Node{Id: uint64(s.Target), Address: "10.0.0.1:1"}, h)
-		}
-	}
-	router.Accept(ctx)
+	r.router.Accept(ctx)
 	for _, in := range ins {
 		want, class := c42model(reg, in)
 		d := &transport.StreamDelegate{Identity: &protocol.Node{Id: in.ID, Address: "10.0.0.1:1"}, Kind: in.Kind}
-		d.Conn = &c42conn{self: d, events: evc, total: total}
-		r := c42result{cs: c42case{Slots: reg, Reverse: reverse, In: in}, class: class}
-		ch := chordT.ch
+		d.Conn = &c42conn{self: d, events: r.evc, total: r.total}
+		x := c42result{cs: c42case{Slots: reg, Reverse: reverse, In: in}, class: class, got: -2}
+		ch := r.chordT.ch
 		if in.Tunnel {
-			ch = tunnelT.ch
+			ch = r.tunnelT.ch
 		}
 		select {
 		case ch <- d:
 		case <-time.After(c42hangGuard): // hang guard only
-			r.msg = "router-does-not-accept-the-stream"
+			x.msg = "router-does-not-accept-the-stream"
 			c42abort.Store(true)
-			res = append(res, r)
+			res = append(res, x)
 			continue
 		}
 		select {
-		case ev := <-evc:
+		case ev := <-r.evc:
+			x.got = ev.slot
+			same := ev.slot == want || (ev.slot >= 0 && want >= 0 && reg[ev.slot] == reg[want])
 			switch {
 			case ev.d != d:
-				r.msg = "outcome-for-a-different-stream"
-			case ev.slot != want:
-				r.msg = "got=" + c42outcome(reg, ev.slot) + ":want=" + c42outcome(reg, want)
+				x.msg = "outcome-for-a-different-stream"
+			case !same:
+				x.msg = "got=" + c42outcome(reg, ev.slot) + ":want=" + c42outcome(reg, want)
 			}
 		case <-time.After(c42hangGuard): // hang guard only
-			r.msg = "stream-neither-handled-nor-closed:want=" + c42outcome(reg, want)
+			x.msg = "stream-neither-handled-nor-closed:want=" + c42outcome(reg, want)
 			c42abort.Store(true)
-			res = append(res, r)
-			return res, total
+			res = append(res, x)
+			return res
 		}
-		res = append(res, r)
+		res = append(res, x)
 	}
 	cancel()
 	runtime.Gosched()
-	return res, total
+	return res
+}
+
+// c42run builds one real router, registers sequentially, then dispatches. Returns one result
+// per incoming stream plus the counter of outcome events (handler runs + closes).
+func c42run(reg []c42slot, reverse bool, ins []c42in) (res []c42result, events *atomic.Int64) {
+	rig := c42newRig()
+	for k := range reg {
+		i := k
+		if reverse {
+			i = len(reg) - 1 - k
+		}
+		rig.register(reg, i)
+	}
+	return rig.dispatch(reg, reverse, ins), rig.total
 }
 
 func c42outcome(reg []c42slot, slot int) string {
@@ -255,6 +282,7 @@ func c42sig(cs c42case, msg string) string {
 }
 
 func c42(c *report.Check) {
+	miscDebugScn(c42cLookup)
 	sp := c42mkspace(c.Thorough())
 	nsub := 1 << len(sp.slots)
 	type job struct {
@@ -345,12 +373,17 @@ func c42(c *report.Check) {
 	c.Set("rule", fmt.Sprintf("every subset of %d registration slots (chord kind x {node-wide, virtual ids}, tunnel kind), registered in ascending and descending order on a fresh real StreamRouter, x every incoming stream of a %d-element alphabet (chord kind x id incl. an unregistered id and kind; tunnel kind); class = required outcome x incoming kind", len(sp.slots), len(sp.ins)))
 	c.Set("samples", dist.Samples)
 	c.Set("exhaustive", !c42abort.Load())
+	c.Set("sequential_evaluations", int(evals))
+	c42conc(c)
 	c.Assume("transports are stubs that only provide the AcceptStream channel; the delegate's connection is a stub whose Close is observed",
 		"a 3 s wait is used only as a hang guard for a stream that is neither handled nor closed (never reached on a passing run)",
 		"streams are fed one at a time; concurrent registration while accepting is not explored")
 }
 
 func c42Replay(c *report.Check, raw []byte) {
+	if miscScnReplay(c, raw, c42cLookup) {
+		return
+	}
 	var cs c42case
 	if err := json.Unmarshal(raw, &cs); err != nil {
 		c.Internal("replay: " + err.Error())
